@@ -152,6 +152,156 @@ theorem squareBase_1d (p1 n1 p2 n2 : V3 α) (s1 s2 : Int)
       intro h0; apply hn; linear_combination h0
     field_simp
     ring
+/-- the (oriented) normal used for a pair: `-n₁` when the first-listed reference is positive -/
+def orientN (n1 : V3 α) (s1 : Int) : V3 α := if s1 == 1 then V3.smul (-1) n1 else n1
+
+theorem orientN_dot (n1 : V3 α) (s1 : Int) (x : V3 α) : (orientN n1 s1).dot x = 0 ↔ n1.dot x = 0 := by
+  unfold orientN
+  split
+  · simp only [V3.dot, V3.smul]
+    constructor <;> intro h <;> linear_combination -h
+  · rfl
+
+theorem dot_smul_left (c : α) (u v : V3 α) : (V3.smul c u).dot v = c * u.dot v := by
+  simp only [V3.dot, V3.smul]; ring
+theorem dot_comm' (u v : V3 α) : u.dot v = v.dot u := by simp only [V3.dot]; ring
+
+/-- **two pairs of planes**: the base vector of each pair carries its second plane onto its first and is parallel
+to the planes of the other pair (so the unit cell moved by `i·a + j·b` is the `(i, j)`-th cell of the grid of planes) -/
+theorem squareBase_2d (p1 n1 p2 n2 q1 m1 q2 m2 : V3 α) (s1 s2 t1 t2 : Int)
+    (hd1 : (p1.sub p2).dot n1 ≠ 0) (hd2 : (q1.sub q2).dot m1 ≠ 0)
+    (hnp : n1.norm2 * m1.norm2 - n1.dot m1 * n1.dot m1 ≠ 0) :
+    ∃ a b, squareBaseVectors [((p1, n1), s1), ((p2, n2), s2), ((q1, m1), t1), ((q2, m2), t2)] = some [a, b] ∧
+      n1.dot ((p2.add a).sub p1) = 0 ∧ m1.dot a = 0 ∧ m1.dot ((q2.add b).sub q1) = 0 ∧ n1.dot b = 0 := by
+  -- oriented normals and distances
+  have hn' : ∀ (n : V3 α) (s : Int) (x : V3 α), (orientN n s).dot x = (if s == 1 then -1 else 1) * n.dot x := by
+    intro n s x; unfold orientN; split <;> simp only [V3.dot, V3.smul] <;> ring
+  have hsgn : ∀ s : Int, ((if s == 1 then (-1 : α) else 1)) ≠ 0 := by intro s; split <;> simp
+  have hD1 : (p1.sub p2).dot (orientN n1 s1) ≠ 0 := by
+    rw [dot_comm', hn', dot_comm' n1]; exact mul_ne_zero (hsgn s1) hd1
+  have hD2 : (q1.sub q2).dot (orientN m1 t1) ≠ 0 := by
+    rw [dot_comm', hn', dot_comm' m1]; exact mul_ne_zero (hsgn t1) hd2
+  generalize hN1 : orientN n1 s1 = N1 at hD1
+  generalize hN2 : orientN m1 t1 = N2 at hD2
+  have hrec : squareReciprocal [((p1, n1), s1), ((p2, n2), s2), ((q1, m1), t1), ((q2, m2), t2)] =
+      some [V3.smul (1 / (p1.sub p2).dot N1) N1, V3.smul (1 / (q1.sub q2).dot N2) N2] := by
+    simp only [squareReciprocal, Option.map_some, ← hN1, ← hN2, orientN]
+  have hnp' : N1.norm2 * N2.norm2 - N1.dot N2 * N1.dot N2 ≠ 0 := by
+    have e : N1.norm2 * N2.norm2 - N1.dot N2 * N1.dot N2 = n1.norm2 * m1.norm2 - n1.dot m1 * n1.dot m1 := by
+      rw [← hN1, ← hN2]; unfold orientN
+      split <;> split <;> simp only [V3.norm2, V3.dot, V3.smul] <;> ring
+    rw [e]; exact hnp
+  generalize hc1 : 1 / (p1.sub p2).dot N1 = c1 at hrec
+  generalize hc2 : 1 / (q1.sub q2).dot N2 = c2 at hrec
+  have hc1ne : c1 ≠ 0 := by rw [← hc1]; exact one_div_ne_zero hD1
+  have hc2ne : c2 ≠ 0 := by rw [← hc2]; exact one_div_ne_zero hD2
+  have hr : (V3.smul c1 N1).norm2 * (V3.smul c2 N2).norm2 - (V3.smul c1 N1).dot (V3.smul c2 N2) * (V3.smul c1 N1).dot (V3.smul c2 N2) ≠ 0 := by
+    have e : (V3.smul c1 N1).norm2 * (V3.smul c2 N2).norm2 - (V3.smul c1 N1).dot (V3.smul c2 N2) * (V3.smul c1 N1).dot (V3.smul c2 N2)
+        = (c1 * c1 * (c2 * c2)) * (N1.norm2 * N2.norm2 - N1.dot N2 * N1.dot N2) := by
+      simp only [V3.norm2, V3.dot, V3.smul]; ring
+    rw [e]
+    exact mul_ne_zero (mul_ne_zero (mul_ne_zero hc1ne hc1ne) (mul_ne_zero hc2ne hc2ne)) hnp'
+  obtain ⟨a, b, hab, ha1, ha2, hb1, hb2⟩ := reciprocal_2d (V3.smul c1 N1) (V3.smul c2 N2) hr
+  refine ⟨a, b, ?_, ?_, ?_, ?_, ?_⟩
+  · simp only [squareBaseVectors, List.length_cons, List.length_nil]
+    rw [hrec]; simpa using hab
+  · -- a · (c1 N1) = 1  ⇒  N1 · a = (p1 − p2) · N1
+    rw [← orientN_dot n1 s1, hN1]
+    have h1 : N1.dot a = (p1.sub p2).dot N1 := by
+      have : c1 * N1.dot a = 1 := by rw [← dot_smul_left, dot_comm']; exact ha1
+      rw [← hc1] at this
+      field_simp at this
+      exact this
+    simp only [V3.dot, V3.sub, V3.add] at h1 ⊢
+    linear_combination h1
+  · rw [← orientN_dot m1 t1, hN2]
+    have : c2 * N2.dot a = 0 := by rw [← dot_smul_left, dot_comm']; exact ha2
+    exact (mul_eq_zero.mp this).resolve_left hc2ne
+  · rw [← orientN_dot m1 t1, hN2]
+    have h1 : N2.dot b = (q1.sub q2).dot N2 := by
+      have : c2 * N2.dot b = 1 := by rw [← dot_smul_left, dot_comm']; exact hb2
+      rw [← hc2] at this
+      field_simp at this
+      exact this
+    simp only [V3.dot, V3.sub, V3.add] at h1 ⊢
+    linear_combination h1
+  · rw [← orientN_dot n1 s1, hN1]
+    have : c1 * N1.dot b = 0 := by rw [← dot_smul_left, dot_comm']; exact hb1
+    exact (mul_eq_zero.mp this).resolve_left hc1ne
+
+/-- **three pairs of planes**: each base vector carries the second plane of its pair onto the first and is parallel to
+the planes of the two other pairs -/
+theorem squareBase_3d (p1 n1 p2 n2 q1 m1 q2 m2 w1 k1 w2 k2 : V3 α) (s1 s2 t1 t2 u1 u2 : Int)
+    (hd1 : (p1.sub p2).dot n1 ≠ 0) (hd2 : (q1.sub q2).dot m1 ≠ 0) (hd3 : (w1.sub w2).dot k1 ≠ 0)
+    (hnp : n1.dot (m1.cross k1) ≠ 0) (h3 : (3 : α) ≠ 0) :
+    ∃ a b c, squareBaseVectors [((p1, n1), s1), ((p2, n2), s2), ((q1, m1), t1), ((q2, m2), t2),
+        ((w1, k1), u1), ((w2, k2), u2)] = some [a, b, c] ∧
+      n1.dot ((p2.add a).sub p1) = 0 ∧ m1.dot a = 0 ∧ k1.dot a = 0 ∧
+      m1.dot ((q2.add b).sub q1) = 0 ∧ n1.dot b = 0 ∧ k1.dot b = 0 ∧
+      k1.dot ((w2.add c).sub w1) = 0 ∧ n1.dot c = 0 ∧ m1.dot c = 0 := by
+  have hn' : ∀ (n : V3 α) (s : Int) (x : V3 α), (orientN n s).dot x = (if s == 1 then -1 else 1) * n.dot x := by
+    intro n s x; unfold orientN; split <;> simp only [V3.dot, V3.smul] <;> ring
+  have hsgn : ∀ s : Int, ((if s == 1 then (-1 : α) else 1)) ≠ 0 := by intro s; split <;> simp
+  have hD1 : (p1.sub p2).dot (orientN n1 s1) ≠ 0 := by
+    rw [dot_comm', hn', dot_comm' n1]; exact mul_ne_zero (hsgn s1) hd1
+  have hD2 : (q1.sub q2).dot (orientN m1 t1) ≠ 0 := by
+    rw [dot_comm', hn', dot_comm' m1]; exact mul_ne_zero (hsgn t1) hd2
+  have hD3 : (w1.sub w2).dot (orientN k1 u1) ≠ 0 := by
+    rw [dot_comm', hn', dot_comm' k1]; exact mul_ne_zero (hsgn u1) hd3
+  have hnp' : (orientN n1 s1).dot ((orientN m1 t1).cross (orientN k1 u1)) ≠ 0 := by
+    have e : (orientN n1 s1).dot ((orientN m1 t1).cross (orientN k1 u1)) =
+        ((if s1 == 1 then (-1 : α) else 1) * (if t1 == 1 then (-1 : α) else 1) * (if u1 == 1 then (-1 : α) else 1)) *
+          n1.dot (m1.cross k1) := by
+      unfold orientN
+      split <;> split <;> split <;> simp only [V3.dot, V3.cross, V3.smul] <;> ring
+    rw [e]; exact mul_ne_zero (mul_ne_zero (mul_ne_zero (hsgn s1) (hsgn t1)) (hsgn u1)) hnp
+  generalize hN1 : orientN n1 s1 = N1 at hD1 hnp'
+  generalize hN2 : orientN m1 t1 = N2 at hD2 hnp'
+  generalize hN3 : orientN k1 u1 = N3 at hD3 hnp'
+  have hrec : squareReciprocal [((p1, n1), s1), ((p2, n2), s2), ((q1, m1), t1), ((q2, m2), t2),
+      ((w1, k1), u1), ((w2, k2), u2)] =
+      some [V3.smul (1 / (p1.sub p2).dot N1) N1, V3.smul (1 / (q1.sub q2).dot N2) N2, V3.smul (1 / (w1.sub w2).dot N3) N3] := by
+    simp only [squareReciprocal, Option.map_some, ← hN1, ← hN2, ← hN3, orientN]
+  generalize hc1 : 1 / (p1.sub p2).dot N1 = c1 at hrec
+  generalize hc2 : 1 / (q1.sub q2).dot N2 = c2 at hrec
+  generalize hc3 : 1 / (w1.sub w2).dot N3 = c3 at hrec
+  have hc1ne : c1 ≠ 0 := by rw [← hc1]; exact one_div_ne_zero hD1
+  have hc2ne : c2 ≠ 0 := by rw [← hc2]; exact one_div_ne_zero hD2
+  have hc3ne : c3 ≠ 0 := by rw [← hc3]; exact one_div_ne_zero hD3
+  have hr : (V3.smul c1 N1).dot ((V3.smul c2 N2).cross (V3.smul c3 N3)) ≠ 0 := by
+    have e : (V3.smul c1 N1).dot ((V3.smul c2 N2).cross (V3.smul c3 N3)) = (c1 * c2 * c3) * N1.dot (N2.cross N3) := by
+      simp only [V3.dot, V3.cross, V3.smul]; ring
+    rw [e]; exact mul_ne_zero (mul_ne_zero (mul_ne_zero hc1ne hc2ne) hc3ne) hnp'
+  obtain ⟨a, b, c, habc, a1, a2, a3, b1, b2, b3, c1', c2', c3'⟩ :=
+    reciprocal_3d (V3.smul c1 N1) (V3.smul c2 N2) (V3.smul c3 N3) hr h3
+  have shift : ∀ (N x p q : V3 α) (cc : α), cc ≠ 0 → cc = 1 / (p.sub q).dot N → x.dot (V3.smul cc N) = 1 →
+      N.dot ((q.add x).sub p) = 0 := by
+    intro N x p q cc hcc hdef hx
+    have hdd : (p.sub q).dot N ≠ 0 := by
+      intro h0; rw [hdef, h0] at hcc; simp at hcc
+    have h1 : N.dot x = (p.sub q).dot N := by
+      have : cc * N.dot x = 1 := by rw [← dot_smul_left, dot_comm']; exact hx
+      rw [hdef] at this
+      field_simp at this
+      exact this
+    simp only [V3.dot, V3.sub, V3.add] at h1 ⊢
+    linear_combination h1
+  have par : ∀ (N x : V3 α) (cc : α), cc ≠ 0 → x.dot (V3.smul cc N) = 0 → N.dot x = 0 := by
+    intro N x cc hcc hx
+    have : cc * N.dot x = 0 := by rw [← dot_smul_left, dot_comm']; exact hx
+    exact (mul_eq_zero.mp this).resolve_left hcc
+  refine ⟨a, b, c, ?_, ?_, ?_, ?_, ?_, ?_, ?_, ?_, ?_, ?_⟩
+  · simp only [squareBaseVectors, List.length_cons, List.length_nil]
+    rw [hrec]; simpa using habc
+  · rw [← orientN_dot n1 s1, hN1]; exact shift N1 a p1 p2 c1 hc1ne hc1.symm a1
+  · rw [← orientN_dot m1 t1, hN2]; exact par N2 a c2 hc2ne a2
+  · rw [← orientN_dot k1 u1, hN3]; exact par N3 a c3 hc3ne a3
+  · rw [← orientN_dot m1 t1, hN2]; exact shift N2 b q1 q2 c2 hc2ne hc2.symm b2
+  · rw [← orientN_dot n1 s1, hN1]; exact par N1 b c1 hc1ne b1
+  · rw [← orientN_dot k1 u1, hN3]; exact par N3 b c3 hc3ne b3
+  · rw [← orientN_dot k1 u1, hN3]; exact shift N3 c w1 w2 c3 hc3ne hc3.symm c3'
+  · rw [← orientN_dot n1 s1, hN1]; exact par N1 c c1 hc1ne c1'
+  · rw [← orientN_dot m1 t1, hN2]; exact par N2 c c2 hc2ne c2'
 end
 
 example : latIndices [(-1, 1), (-2, 2)] =
